@@ -47,6 +47,16 @@ const WIDTH: usize = 2;
 
 const MASK: u64 = 0x3;
 
+// Verification seam: textually shadows the std macro inside this module so that a harness can
+// make the scalar fallback of `from_acgt_bytes` run on a machine that has AVX2.
+#[cfg(feature = "verif_hooks")]
+macro_rules! is_x86_feature_detected {
+    ($f:tt) => {
+        (std::is_x86_feature_detected!($f)
+            && !crate::verif_hooks::FORCE_SCALAR_ASCII.with(|c| c.get()))
+    };
+}
+
 /// A container for sequence of DNA bases.
 /// ```
 /// use debruijn::dna_string::DnaString;
